@@ -113,6 +113,9 @@ Plain(s) == /\ ~Inlined(M, s) /\ ~IsComp(M, s)
             /\ \A x \in 1..NSc(M) : ~HasTP(M, x)
             /\ InlinedInto(M, Ref(s)) = {Ref(s)}
             /\ \A i \in OwnedBy(M, Ref(s), "py") : M.st[i].k # "aug"
+            \* GlobalEcho / module-level comprehension walrus put DEF_GLOBAL into the module row without a declaration there
+            /\ s = 1 => /\ \A i \in 1..NSt(M) : M.st[i].k = "global" => M.st[i].c = 1
+                        /\ \A i \in CompWalrus(M) : Owner(M, i, "py") # Ref(1)
 FreeMapping == wf => \A s \in 1..NSc(M) : Plain(s) =>
   NamesOf(M, PfstCat(M, s, "free"))
     = {n \in TableNames(M, Ref(s)) : LET f == SymRow(M, Ref(s), n) IN "ref" \in f /\ f \cap {"asg", "par", "imp", "glo", "nl"} = {}}
